@@ -4,6 +4,8 @@ import Firefly.Model.AmlParser
 import Firefly.Proof.AmlFirstPass
 import Firefly.Proof.AmlPasses
 import Firefly.Proof.AmlFirstPassG
+import Firefly.Proof.AmlMerge
+import Firefly.Proof.AmlPrint
 /-!
 # C12 — Malformed AML is rejected with an error, never a crash, hang or stray pointer
 
@@ -266,8 +268,9 @@ example (d : Bytes) : ∀ t, AmlParser.defaultTree 0 = .ok t →
 * `total` — for every table `d`, every well-formed pool and `fuelFor`: `parseAML d (fuelFor d t) h s` is `.ok _`
   (never `.panic`, never `.outOfFuel`);
 * `tree_WF` — in the state `parseAML` returns, after success *and* after failure, the pool satisfies `C13.WF`;
-* `print_total` — `PrettyPrint` of the resulting tree does not panic (no Lean model of `PrettyPrint` exists; the
-  oracle runs it on the real code for every input).
+* `print_total` — `PrettyPrint` of the resulting tree does not panic: proved below for every well-formed pool with
+  correctly typed values (`print_total`, about the model of `toString`'s panic sites); that the pool `parseAML`
+  returns has correctly typed values (`PrintOK`) is not derived — the oracle runs the real `PrettyPrint` on every input.
 
 What is proved towards them, each piece named for what it is:
 
@@ -279,10 +282,14 @@ What is proved towards them, each piece named for what it is:
 | `relocate_no_panic_WF` | `relocateNamedObjects` | same strength |
 | `connect_non_named_no_panic_WF` | `connectNonNamedObjArgs` | same strength |
 | `resolve_calls_no_panic_WF` | `resolveMethodCalls` | same strength, under `CallShape` (hypothesis, kept) |
+| `print_total` | the print walk over any `C13.WF` pool with correctly typed values (`PrintOK`) | total: no `.panic`, no `.outOfFuel` with `printFuel` |
+| `tree_passes_no_panic_WF` | `connectNamedObjArgs(0)`; resolve loop — all of stage 3 as `ParseAML` runs it | never `.panic`, `MergeInv` kept; fuel NOT bounded |
+| `shape_checks_sound` | the oracle's executable checks of `MergeInv` / `CallShape` imply them | the hypotheses are evaluated on the model's run of every replayed input |
+| `resolve_loop_no_panic_WF` | `resolveLoopPasses` (merge + relocate until stable) | never `.panic`, `MergeInv` (so `C13.WF`) kept; number of passes / fuel NOT bounded |
+| `merge_no_panic_WF` | `mergeScopeDirectives` (moves contents, frees the directive) | never `.panic`, `C13.WF` kept, only live slots freed; under `MergeInv` (shape of `Scope` directives: hypothesis, kept); fuel bound NOT proved |
 
-Not covered by any theorem: `mergeScopeDirectives` (it frees objects while the walk holds saved sibling
-indices, its `append` contract rests on a property of `Find`, and its unchecked `value.([]byte)` / two-argument
-shape of a `Scope` directive would have to be exported by the first pass), `parseDeferredBlocks` (the strict
+Not covered by any theorem: the export of the shape hypotheses (`MergeInv`, `CallShape`) by the first pass,
+`parseDeferredBlocks` (the strict
 re-parse in `parseModeAllBlocks`), the fuel bound of the tree walks, and the composition into `parseAML`.  These are decided per input by the oracle on the real
 code and by the model-vs-implementation correspondence.
 
@@ -398,8 +405,85 @@ theorem resolve_calls_no_panic_WF (d : Bytes) (fuel objIndex : Nat) (s : AmlPars
         ∀ x, C13.live s'.tree x = C13.live s.tree x) :=
   ((AmlParser.resolve_np d fuel).1 objIndex h hc ho).mono (fun _ _ hq => ⟨hq.1, hq.2.1, hq.2.2.1.size, hq.2.2.1.live⟩)
 
+/-- **`mergeScopeDirectives` never panics and keeps the pool well-formed** — the pass that frees objects while
+the walk holds saved sibling indices, and whose `append` has no dynamic guard.  Hypothesis `MergeInv`
+(`AmlParser.MI`): `TreeInv`, the root is a parentless scope block, and every `Scope` directive of the table being
+parsed that still has arguments has the shape the first pass gives it (`ShapeAt`: its name starts with a zero byte —
+it was never named —, exactly two arguments: a childless name-path object holding the `[]byte` of a path whose
+single segment, if it is one, does not start with a zero byte, and a scope block).  Conclusion: no `.panic`
+(the unchecked `value.([]byte)`, every `ObjectAt`, every `detach`/`append`/`free` contract: the lookup result is
+never inside the directive's own subtree because `Find` does not descend through an object whose name starts with
+zero — `AmlParser.find_avoid`; the sibling saved before a recursive call is not freed by it because everything a
+call frees or moves lies inside the subtree it visits — the ghost context `AmlParser.Ctx`), and in the state
+returned `MergeInv` holds again: `C13.WF`, no slot created, only live slots freed. -/
+theorem merge_no_panic_WF (d : Bytes) (fuel : Nat) (s : AmlParser.PState) (h : AmlParser.MI d s) :
+    AmlParser.NPs (AmlParser.mergeScopeDirectives d fuel 0) s
+      (fun _ s' => AmlParser.MI d s' ∧ s'.tree.pool.size = s.tree.pool.size ∧
+        ∀ x, C13.live s'.tree x = true → C13.live s.tree x = true) :=
+  ((AmlParser.merge_np d fuel).1 (s0 := s) (X0 := 0) (Mvd := fun _ => False) 0 h.tp.wf h (AmlParser.Ctx.refl s 0) h.tp.root
+    (h.tp.wf.anc_self h.tp.root)).mono
+    (fun _ _ hq => by
+      obtain ⟨q1, _, _, _, q4⟩ := hq
+      exact ⟨q1, q4.shr.size, q4.shr.live⟩)
+
+/-- **The resolve loop never panics and keeps the pool well-formed**: `resolveLoopPasses` — `mergeScopeDirectives`
+and `relocateNamedObjects` in turn until both report no change or one fails — under `MergeInv`, which both passes
+keep (`relocateNamedObjects` never moves an argument of a `Scope` directive: the object it moves has arguments and
+is not a scope block, and a directive is not a named object).  Any number of passes (the bound on the number of
+passes is part of the unproved fuel bound). -/
+theorem resolve_loop_no_panic_WF (d : Bytes) (fuel n : Nat) (s : AmlParser.PState) (h : AmlParser.MI d s) :
+    AmlParser.NPs (AmlParser.resolveLoopPasses d fuel n) s
+      (fun _ s' => AmlParser.MI d s' ∧ s'.tree.pool.size = s.tree.pool.size ∧
+        ∀ x, C13.live s'.tree x = true → C13.live s.tree x = true) :=
+  (AmlParser.resolveLoopPasses_np d fuel n h).mono (fun _ _ hq => ⟨hq.1, hq.2.size, hq.2.live⟩)
+
+/-- **The tree passes between the first pass and the deferred blocks never panic and keep the pool well-formed**
+(`tree_passes`, stage 3 as `ParseAML` runs it): `connectNamedObjArgs(0)`, then — unless it failed — the resolve
+loop (`AmlParser.treePasses`), under `MergeInv`, which `connectNamedObjArgs` keeps as well (the object it names
+and fills is a named one, hence not a directive, and its parent is not a directive either). -/
+theorem tree_passes_no_panic_WF (d : Bytes) (fuel : Nat) (s : AmlParser.PState) (h : AmlParser.MI d s) :
+    AmlParser.NPs (AmlParser.treePasses d fuel) s
+      (fun _ s' => AmlParser.MI d s' ∧ s'.tree.pool.size = s.tree.pool.size ∧
+        ∀ x, C13.live s'.tree x = true → C13.live s.tree x = true) :=
+  (AmlParser.treePasses_np d fuel h).mono (fun _ _ hq => ⟨hq.1, hq.2.size, hq.2.live⟩)
+
+/-- **The shape hypotheses are checked on every replayed input.**  `MergeInv` and `CallShape` are not derived
+from the first pass by a theorem; instead the replay driver evaluates them on the model's run of every input
+(`AmlParser.shapeAudit`: after a first pass that did not fail, and before `resolveMethodCalls`) and reports a
+property failure (`clause=shape-hypothesis`) if one does not hold.  The executable checks imply the hypotheses: -/
+theorem shape_checks_sound (d : Bytes) (s : AmlParser.PState) :
+    (AmlParser.TP s → AmlParser.mergeInvB d s = true → AmlParser.MI d s) ∧
+    (AmlParser.callShapeB s = true → AmlParser.CallShape s) :=
+  ⟨fun tp h => AmlParser.mergeInvB_sound tp h, fun h => AmlParser.callShapeB_sound h⟩
+
+/-- **`PrettyPrint` is total on well-formed pools** (`C12.print_total`, for the model of `toString`'s panic sites
+that the replay oracle runs, `Replay.Aml.printWalk`: the nil dereferences and dynamic type assertions of
+`toString`, with the recursion over the arguments; its verdict is compared with the real `PrettyPrint` on every
+input).  For every pool that satisfies `C13.WF`, has a live root and whose live objects have the dynamic value
+types `toString` asserts (`PrintOK`: a method call holds the index of a live object whose second argument is an
+integer, a resolved name path the index of a live object, a named field a field element, a string / name path a
+`[]byte`, a DWord constant has a live parent): the walk returns normally — no `.panic`, and no `.outOfFuel` with
+`printFuel` = (size+2)² frames (at most size+1 levels of at most size siblings). -/
+theorem print_total (t : ObjectTree) (w : C13.WF t) (hroot : C13.live t 0 = true)
+    (hp : ∀ x, C13.live t x = true → AmlParser.PrintOK t x) :
+    Replay.Aml.printWalk t (Replay.Aml.printFuel t) 0 = .ok () ∧ Replay.Aml.printOutcome t = "ok" :=
+  AmlParser.print_total' w hroot hp
+
 /-- the state the first pass returns satisfies the hypothesis of the tree-pass theorems -/
 theorem first_pass_gives_TreeInv (d : Bytes) (s : AmlParser.PState) (h : AmlParser.G.FP d s) : AmlParser.TP s :=
   ⟨h.tree.wf, h.tree.root, h.tree.info⟩
+
+/-- **`Parser.init` resets everything a used Parser carries** (tie to the compiled Go code): the harness fills a
+`Parser` with stale scope / pkgEnd stacks, counters, mode and handle, calls the real `p.init` on an empty table and
+prints what is left (`Gen.C12.initFromDirty`, regenerated on every run); the model's `init` run on the same dirty
+state leaves exactly that — in particular both stacks are rebuilt (`scopeStack = []`, `pkgEndStack = [len]`), which
+is what makes a rejected table harmless for the next `ParseAML` on the same `Parser`. -/
+theorem init_resets_state :
+    (match AmlParser.init (Array.replicate headerLen (0 : UInt8)) 5
+        { scopeStack := #[1, 2, 3], pkgEndStack := #[7, 8], resolvePasses := 9, mergedScopes := 9, relocatedObjects := 9,
+          allBlocks := true, tableHandle := 77 } with
+      | .ok (_, s) => [s.scopeStack.size, s.pkgEndStack.size, s.resolvePasses, s.mergedScopes, s.relocatedObjects,
+          (if s.allBlocks then 1 else 0), s.tableHandle, s.streamEnd, s.r.offset, s.r.pkgEnd]
+      | .error _ => []) = initFromDirty := by decide
 
 end Firefly.C12
